@@ -37,6 +37,7 @@ RULE = (
     "compared by denotation on a domain where the posted constraints are neither valid nor unsatisfiable, or a scripted "
     "satisfiable reply reflected into >=1 variable; distinct = distinct event-log SHA-256"    "; 4% of the runs are programs of 12-30 variables whose description is compared with the reference on sampled assignments "
     "(witness, boundary, random) instead of on all of them"
+    '; fault injection in one honest scenario out of ten: the external solver dies without a reply at the n-th call of one query, or (timeout + psutil configured) stalls until the deadline; later queries of the same Solver / backend object and of the shadow Solver are checked in full'
 )
 STATE_MEASURE = "distinct CSP descriptions received by the peer (SHA-256 of the text)"
 COMPONENTS = {
@@ -47,7 +48,7 @@ ASSUMPTIONS = [
     "the stub's reading of the wire protocol (Sugar CSP syntax, '#' key line, reply formats of CspuzSugarInterface.java) equals the real solvers'; Sugar, csugar and cspuz_core cannot be installed offline",
     "text is compared by denotation over all assignments of the declared domains, never by spelling, order or whitespace",
     "only replies the Java reference could print are sent (LF line ends, every declared variable listed in answer-finder mode, only answer keys listed in deduction mode)",
-    "the Popen + deadline path of run_subprocess is exercised with a fake psutil (the package is not installed); on an injected stall only 'the timeout reaches the caller and no answer is made up' is required - which processes get SIGTERM is not part of any listed property",
+    "the Popen + deadline path of run_subprocess is exercised with a fake psutil (the package is not installed); on an injected stall the query may raise (the timeout reaches the caller) or return - a return is checked like any other, so a made-up answer is reported and a retry that got a reply is not - which processes get SIGTERM is not part of any listed property",
 ]
 
 NAMES = ["sugar", "sugar_extended", "csugar", "enigma_csp", "cspuz_core"]
